@@ -46,26 +46,99 @@ Proof.
       * intros [H0|H0]; auto.
 Qed.
 
-Lemma rds_replace_nodup : forall t x r, NoDup (map fst r) -> NoDup (map fst (rds_replace t x r)).
+Lemma kind_ns : kind tNS = 0.
+Proof. reflexivity. Qed.
+
+Lemma rds_get_filter_keep : forall t (f : Z * list Z -> bool) r,
+    (forall x, f (t, x) = true) -> rds_get t (filter f r) = rds_get t r.
 Proof.
-  intros t x r H. unfold rds_replace. rewrite map_app. cbn.
-  destruct (rds_remove_nodup t r H) as [A B].
-  apply Permutation.Permutation_NoDup with (l := t :: map fst (rds_remove t r)).
+  induction r as [|[t0 x] r IH]; intros H; cbn; auto.
+  destruct (f (t0, x)) eqn:E; cbn.
+  - destruct (t0 =? t); auto.
+  - destruct (t0 =? t) eqn:E2; auto. apply Z.eqb_eq in E2. subst. rewrite H in E. discriminate.
+Qed.
+
+Lemma rds_get_filter_drop : forall t (f : Z * list Z -> bool) r,
+    (forall x, f (t, x) = false) -> rds_get t (filter f r) = None.
+Proof.
+  induction r as [|[t0 x] r IH]; intros H; cbn; auto.
+  destruct (f (t0, x)) eqn:E; cbn; auto.
+  destruct (t0 =? t) eqn:E2; auto. apply Z.eqb_eq in E2. subst. rewrite H in E. discriminate.
+Qed.
+
+Lemma filter_fst_incl : forall (f : Z * list Z -> bool) r y, In y (map fst (filter f r)) -> In y (map fst r).
+Proof.
+  intros f r y H. apply in_map_iff in H as (e & <- & He). apply filter_In in He as [He _]. apply in_map; auto.
+Qed.
+
+Lemma filter_nodup_fst : forall (f : Z * list Z -> bool) r, NoDup (map fst r) -> NoDup (map fst (filter f r)).
+Proof.
+  induction r as [|[t0 x] r IH]; intros H; cbn; [constructor|]. inversion H; subst.
+  destruct (f (t0, x)); cbn; auto. constructor; auto. intros Hin. apply H2. eapply filter_fst_incl; eauto.
+Qed.
+
+Lemma rds_append_fst : forall t x r y, In y (map fst (rds_append t x r)) -> y = t \/ In y (map fst r).
+Proof.
+  intros t x r y H. unfold rds_append in H. destruct r as [|e r]; [cbn in H; destruct H; auto|].
+  rewrite map_app in H. apply in_app_or in H as [H|H]; [|cbn in H; destruct H as [H|[]]; auto].
+  right. destruct (kind t =? 2); [eapply filter_fst_incl; eauto|].
+  destruct (kind t =? 0); [eapply filter_fst_incl; eauto|exact H].
+Qed.
+
+Lemma rds_append_nodup : forall t x r, NoDup (map fst r) -> ~ In t (map fst r) -> NoDup (map fst (rds_append t x r)).
+Proof.
+  intros t x r H Hn. unfold rds_append. destruct r as [|e r]; [cbn; constructor; auto; constructor|].
+  rewrite map_app. cbn [map fst].
+  set (r' := if kind t =? 2 then filter (fun r0 : Z * list Z => negb (kind (fst r0) =? 0)) (e :: r)
+             else if kind t =? 0 then filter (fun r0 : Z * list Z => negb (kind (fst r0) =? 2)) (e :: r)
+             else e :: r).
+  assert (Hnd : NoDup (map fst r')).
+  { unfold r'. destruct (kind t =? 2); [|destruct (kind t =? 0)]; auto; apply filter_nodup_fst; auto. }
+  assert (Hni : ~ In t (map fst r')).
+  { unfold r'. intros Hin. apply Hn. destruct (kind t =? 2); [|destruct (kind t =? 0)]; auto;
+      eapply filter_fst_incl; eauto. }
+  apply Permutation.Permutation_NoDup with (l := t :: map fst r').
   - apply Permutation.Permutation_cons_append.
   - constructor; auto.
 Qed.
 
-Lemma has_ns_replace_other : forall t x f r, t <> tNS ->
-    has_ns (mkNode f (rds_replace t x r)) = match rds_get tNS r with Some _ => true | None => false end.
+Lemma rds_replace_nodup : forall t x r, NoDup (map fst r) -> NoDup (map fst (rds_replace t x r)).
 Proof.
-  intros. unfold has_ns, rds_replace. cbn [nrds]. rewrite rds_get_app, rds_get_remove_other by auto.
-  destruct (rds_get tNS r); auto. cbn. destruct (t =? tNS) eqn:E; auto. apply Z.eqb_eq in E. congruence.
+  intros t x r H. unfold rds_replace. destruct (rds_remove_nodup t r H) as [A B]. apply rds_append_nodup; auto.
+Qed.
+
+Lemma rds_get_append : forall t' t x r,
+    rds_get t' (rds_append t x r) =
+    match rds_get t' (match r with
+                      | [] => []
+                      | _ => if kind t =? 2 then filter (fun r0 : Z * list Z => negb (kind (fst r0) =? 0)) r
+                             else if kind t =? 0 then filter (fun r0 : Z * list Z => negb (kind (fst r0) =? 2)) r
+                             else r
+                      end) with
+    | Some y => Some y
+    | None => if t =? t' then Some x else None
+    end.
+Proof.
+  intros. unfold rds_append. destruct r as [|e r]; [reflexivity|]. rewrite rds_get_app. reflexivity.
+Qed.
+
+Lemma has_ns_replace_other : forall t x f r, t <> tNS ->
+    has_ns (mkNode f (rds_replace t x r)) =
+    if kind t =? 2 then false else match rds_get tNS r with Some _ => true | None => false end.
+Proof.
+  intros t x f r Ht. unfold has_ns, rds_replace. cbn [nrds]. rewrite rds_get_append.
+  assert (Et : (t =? tNS) = false) by (apply Z.eqb_neq; auto). rewrite Et.
+  rewrite <- (rds_get_remove_other t tNS r) by auto.
+  destruct (rds_remove t r) as [|e r'] eqn:Er; [cbn; destruct (kind t =? 2); reflexivity|].
+  destruct (kind t =? 2).
+  - rewrite rds_get_filter_drop; auto.
+  - destruct (kind t =? 0); [rewrite rds_get_filter_keep; auto|]; destruct (rds_get tNS (e :: r')); reflexivity.
 Qed.
 
 Lemma has_ns_replace_ns : forall x f r, has_ns (mkNode f (rds_replace tNS x r)) = true.
 Proof.
-  intros. unfold has_ns, rds_replace. cbn [nrds]. rewrite rds_get_app.
-  destruct (rds_get tNS (rds_remove tNS r)); auto.
+  intros. unfold has_ns, rds_replace. cbn [nrds]. rewrite rds_get_append. rewrite Z.eqb_refl.
+  match goal with |- match match ?a with _ => _ end with _ => _ end = _ => destruct a end; reflexivity.
 Qed.
 
 Lemma has_ns_remove_other : forall t f r, t <> tNS ->
@@ -112,122 +185,3 @@ Proof.
     + right. split; auto. exists (n0, nd'). auto.
 Qed.
 
-(* ---------- put_rdataset ---------- *)
-Theorem put_inv : forall c v n t x,
-    Inv c v -> validk c (K n) -> Inv c (put_rdataset c v n t x).
-Proof.
-  intros c v n t x HI Hv. unfold put_rdataset.
-  destruct (maybe_cow c v n) as [[l1 d1 ch1] nd] eqn:Ec.
-  destruct (cow_spec c v n _ nd HI Hv Ec) as (HI1 & _ & (n0 & E0 & Hin0) & _).
-  cbn [v_nodes v_delegs v_changed] in *.
-  pose proof (inv_sn c _ HI1) as S1. pose proof (inv_sd c _ HI1) as Sd1. cbn [v_nodes v_delegs] in S1, Sd1.
-  pose proof (inv_flags c _ HI1 n0 nd Hin0) as Hf. cbn [v_nodes] in Hf.
-  rewrite (is_apex_ext c n0 n), (occluded_ext c l1 n0 n) in Hf by auto.
-  pose proof (inv_nd c _ HI1 n0 nd Hin0) as Hnd.
-  pose proof (D_refl l1 n n0 nd S1 Hin0 E0) as D0.
-  pose proof (flag_cases (is_apex c n) (occluded c l1 n) (has_ns nd)) as (Fc1 & _ & _).
-  cbn zeta in Fc1. rewrite <- Hf in Fc1. rewrite Fc1.
-  pose proof (owner_entry c l1 n0 nd S1 Hin0) as Hoe. rewrite E0 in Hoe.
-  destruct ((t =? tNS) && (negb (is_apex c n) && negb (occluded c l1 n))) eqn:Eb.
-  - (* a delegation point: NS at a name that is neither the origin nor glue *)
-    apply andb_true_iff in Eb as [Et Eb]. apply andb_true_iff in Eb as [Ea Eo].
-    apply Z.eqb_eq in Et. subst t. apply negb_true_iff in Ea, Eo.
-    assert (Hna : K n <> apexkey c) by (apply is_apex_false_key; auto).
-    assert (Hno : ~ occk c l1 (K n)) by (apply occluded_false_iff; auto).
-    rewrite Ea, Eo in Hf.
-    assert (Hf2 : Z.lor (nflags nd) fDELEGATION = fDELEGATION) by (rewrite Hf; destruct (has_ns nd); reflexivity).
-    rewrite Hf2.
-    set (nd2 := mkNode fDELEGATION (nrds nd)).
-    set (ndf := mkNode fDELEGATION (rds_replace tNS x (nrds nd))).
-    assert (Hnsf : ns_owner c (n0, ndf) = true).
-    { unfold ns_owner. cbn [fst snd]. unfold ndf. rewrite has_ns_replace_ns.
-      rewrite (is_apex_ext c n0 n), Ea by auto. reflexivity. }
-    assert (Hndf : NoDup (map fst (nrds ndf))) by (apply rds_replace_nodup; auto).
-    pose proof (D_update l1 l1 n n0 nd nd2 idtr S1 D0 E0) as D2.
-    pose proof (al_update_sorted l1 n nd2 S1) as S2.
-    destruct (al_mem n d1) eqn:Em; cbn [negb].
-    + (* already a delegation point *)
-      cbn [v_nodes v_delegs v_changed nflags nrds].
-      pose proof (D_update l1 _ n n0 nd2 ndf idtr S2 D2 E0) as Df.
-      apply (inv_mem c _ HI1) in Em as [Ho _]. cbn [v_nodes] in Ho. apply Hoe in Ho as [Hns _].
-      assert (Hown : forall k, owner c (al_update n ndf (al_update n nd2 l1)) k <-> owner c l1 k).
-      { eapply owner_same_entry; eauto. rewrite Hnsf. unfold ns_owner. cbn [fst snd].
-        rewrite Hns, (is_apex_ext c n0 n), Ea by auto. reflexivity. }
-      eapply (Inv_same_occ c l1 d1 ch1 _ d1 ch1 n (Some (n0, ndf)) idtr); eauto.
-      * apply al_update_sorted; auto.
-      * intros k. apply occP_ext. exact Hown.
-      * intros n1 nd1 He. injection He as <- <-. rewrite Ea, Eo. unfold ndf. rewrite has_ns_replace_ns. reflexivity.
-      * tauto.
-      * intros e He. inversion He; subst e. exact Hndf.
-    + (* a new delegation point: index it, mark its subtree as glue *)
-      cbn [v_nodes v_delegs v_changed].
-      destruct (ugf_true_desc (al_update n nd2 l1) (al_set n tt d1) ch1 n S2 (al_set_sorted _ _ _ Sd1))
-        as (l3 & d3 & ch3 & Eu & S3 & Sd3 & Hl3 & Hd3).
-      rewrite Eu. cbn [v_nodes v_delegs v_changed nflags nrds].
-      set (trw := fun (k : name) (y : node) => if strictly_beneath k n then mkNode fGLUE (nrds y) else y).
-      assert (D3 : Desc l1 l3 n (Some (n0, nd2)) trw).
-      { eapply D_trans_walk; eauto. intros k y Ek. unfold trw. rewrite not_sb_self; auto. }
-      pose proof (D_update l1 l3 n n0 nd2 ndf trw S3 D3 E0) as Df.
-      eapply (Inv_new_top c l1 d1 ch1 _ d3 ch3 n n0 ndf trw); eauto.
-      * apply al_update_sorted; auto.
-      * intros k y. unfold trw. destruct (strictly_beneath k n); reflexivity.
-      * unfold ndf. apply has_ns_replace_ns.
-      * intros k y Hin Hk. unfold trw. destruct (strictly_beneath k n); reflexivity.
-      * intros y. rewrite Hd3. split.
-        -- intros [Hy Hn]. apply keys_in in Hy as (k & u & Hin & <-). apply al_set_in in Hin; auto.
-           destruct Hin as [Hin|[Hin Hk]]; [inversion Hin; subst; auto|]. right.
-           assert (Hk1 : In (K k) (keys d1)) by (eapply in_keys; eauto).
-           split; auto. intros Hs. apply Hn. split; auto.
-           rewrite al_update_keys. apply (inv_deleg_keys_nodes c _ HI1). exact Hk1.
-        -- intros [->|[Hy Hn]].
-           ++ split; [apply (in_keys _ n tt); apply al_set_in; auto|].
-              intros [Hs _]. eapply sbelow_irrefl; eauto.
-           ++ split; [|intros [Hs _]; auto]. apply keys_in in Hy as (k & u & Hin & <-).
-              destruct (key_eq_dec (K k) (K n)) as [Ek|Ek].
-              ** rewrite Ek. apply (in_keys _ n tt); apply al_set_in; auto.
-              ** apply (in_keys _ k u). apply al_set_in; auto.
-  - (* no change of the delegation structure *)
-    cbn [v_nodes v_delegs v_changed].
-    set (ndf := mkNode (nflags nd) (rds_replace t x (nrds nd))).
-    pose proof (D_update l1 l1 n n0 nd ndf idtr S1 D0 E0) as Df.
-    assert (Hndf : NoDup (map fst (nrds ndf))) by (apply rds_replace_nodup; auto).
-    destruct (t =? tNS) eqn:Et.
-    + apply Z.eqb_eq in Et. subst t. cbn [andb] in Eb.
-      destruct (is_apex c n) eqn:Ea.
-      * (* NS at the origin *)
-        assert (Hown : forall k, owner c (al_update n ndf l1) k <-> owner c l1 k).
-        { eapply owner_same_entry; eauto. unfold ns_owner. cbn [fst snd].
-          rewrite (is_apex_ext c n0 n), Ea, !andb_false_r by auto. reflexivity. }
-        eapply (Inv_same_occ c l1 d1 ch1 _ d1 ch1 n (Some (n0, ndf)) idtr); eauto.
-        -- apply al_update_sorted; auto.
-        -- intros k. apply occP_ext. exact Hown.
-        -- intros n1 nd1 He. injection He as <- <-. unfold ndf. cbn [nflags]. rewrite Hf, Ea. reflexivity.
-        -- tauto.
-        -- intros e He. inversion He; subst e. exact Hndf.
-      * (* NS beneath a delegation point *)
-        cbn [negb andb] in Eb. apply negb_false_iff in Eb.
-        assert (Hna : K n <> apexkey c) by (apply is_apex_false_key; auto).
-        assert (Hocc : occk c l1 (K n)) by (apply occluded_iff; auto).
-        assert (Hnsf : ns_owner c (n0, ndf) = true).
-        { unfold ns_owner. cbn [fst snd]. unfold ndf. rewrite has_ns_replace_ns.
-          rewrite (is_apex_ext c n0 n), Ea by auto. reflexivity. }
-        pose proof (owner_add_entry c l1 _ n n0 ndf idtr Df (fun _ _ => eq_refl) E0 Hnsf) as Hown.
-        eapply (Inv_same_occ c l1 d1 ch1 _ d1 ch1 n (Some (n0, ndf)) idtr); eauto.
-        -- apply al_update_sorted; auto.
-        -- intros k. rewrite !occk_occP. eapply occP_add_occluded; eauto.
-        -- intros k Hk. rewrite Hown. split; auto. intros [H| ->]; auto. contradiction.
-        -- intros n1 nd1 He. injection He as <- <-. unfold ndf. cbn [nflags]. rewrite Hf, Ea, Eb. reflexivity.
-        -- tauto.
-        -- intros e He. inversion He; subst e. exact Hndf.
-    + (* another type *)
-      apply Z.eqb_neq in Et.
-      assert (Hns : has_ns ndf = has_ns nd) by (unfold ndf; rewrite has_ns_replace_other; auto).
-      assert (Hown : forall k, owner c (al_update n ndf l1) k <-> owner c l1 k).
-      { eapply owner_same_entry; eauto. unfold ns_owner. cbn [fst snd]. rewrite Hns. reflexivity. }
-      eapply (Inv_same_occ c l1 d1 ch1 _ d1 ch1 n (Some (n0, ndf)) idtr); eauto.
-      * apply al_update_sorted; auto.
-      * intros k. apply occP_ext. exact Hown.
-      * intros n1 nd1 He. injection He as <- <-. rewrite Hns. unfold ndf. cbn [nflags]. exact Hf.
-      * tauto.
-      * intros e He. inversion He; subst e. exact Hndf.
-Qed.
